@@ -34,10 +34,10 @@ prop("C01", KERNELS_CODEC + [
 prop("C02", [H("K8_storedmeta", quick={"wall": "140s", "shards": 8}), H("H02_stored", quick={"wall": "140s", "shards": 16, "param": "wide=0,maxAP=1,maxDocs=1"}, thorough={"wall": "1500s", "shards": 16, "param": "wide=1,maxAP=2,maxDocs=2"})])
 prop("C03", [H("K6_boundaries"), H("H03_coder"), H("H03_dv", quick={"wall": "140s", "shards": 16, "param": "maxDocs=2,maxSeq=4,lite=1"}, thorough={"wall": "1500s", "shards": 16, "param": "maxDocs=3,maxSeq=4"})])
 prop("C04", [H("K7_footer"), H("H04_persist", quick={"wall": "140s", "shards": 16, "param": "lite=1,maxDocs=1"}, thorough={"wall": "1500s", "shards": 16, "param": "maxDocs=2"})])
-prop("C05", [H("H05_merge", common={"param": "maxDocs=1,tieReopen=1,maxOcc=1"}, quick={"wall": "140s", "shards": 12}, thorough={"wall": "1500s", "shards": 16, "param": "maxDocs=2,tieReopen=0,maxOcc=1"}),
+prop("C05", [H("K9_copystored"), H("H05_merge", common={"param": "maxDocs=1,tieReopen=1,maxOcc=1"}, quick={"wall": "140s", "shards": 12}, thorough={"wall": "1500s", "shards": 16, "param": "maxDocs=2,tieReopen=0,maxOcc=1"}),
              # multi-valued stored fields (up to 3 occurrences with array positions), every field present and stored
              H("H05_merge", common={"param": "maxDocs=1,tieReopen=1,maxOcc=3,storeAll=1,always=1,fixAP=1,symTyp=0"}, quick={"wall": "140s", "shards": 4}, thorough={"wall": "1500s", "shards": 16, "param": "maxDocs=2,tieReopen=1,maxOcc=3,storeAll=1,always=1,fixAP=1,symTyp=0"})])
-prop("C06", KERNELS_CODEC[2:] + [H("H06_locids"), H("H06_merge", quick={"wall": "140s", "shards": 16, "param": "maxDocs=1,tieReopen=1,lite=1"}, thorough={"wall": "1500s", "shards": 16, "param": "maxDocs=2,tieReopen=0"})])
+prop("C06", KERNELS_CODEC[2:] + [H("H06_locids"), H("H06_enum", quick={"wall": "140s", "shards": 4}), H("H06_merge", quick={"wall": "140s", "shards": 16, "param": "maxDocs=1,tieReopen=1,lite=1"}, thorough={"wall": "1500s", "shards": 16, "param": "maxDocs=2,tieReopen=0"})])
 prop("C07", [
     H("K2_uvarint_rt"), H("K2_uvarint_agree"),
     # everything crossed on small lists
@@ -64,6 +64,6 @@ prop("C09", [H("K1_chunksize"), H("K1_chunktable"), H("K7_footer"), H("K6_bounda
              H("H09_layout_merged", quick={"wall": "140s", "shards": 8, "param": "lite=1"}, thorough={"wall": "1500s", "shards": 16})])
 VEC = {"vectors": True}
 prop("C14", [H("H14_search", common=dict(VEC), quick={"wall": "140s", "shards": 16, "param": "maxDocs=2,nCat=2,nQueries=1,nSims=1,maxK=3"}, thorough={"wall": "1500s", "shards": 16, "param": "maxDocs=2"})])
-prop("C15", [H("H15_vecmerge", common=dict(VEC), quick={"wall": "140s", "shards": 16, "param": "nCat=2,reopen=0,maxDocs=1"}, thorough={"wall": "1500s", "shards": 16})])
-prop("C16", [H("H16_history", common=dict(VEC), quick={"wall": "140s", "shards": 16, "param": "maxEvents=4"}, thorough={"wall": "1500s", "shards": 16, "param": "maxEvents=6"})])
+prop("C15", [H("H15_vecmerge", common=dict(VEC), quick={"wall": "140s", "shards": 16, "param": "nCat=2,reopen=0,maxDocs=1,secondField=1"}, thorough={"wall": "1500s", "shards": 16})])
+prop("C16", [H("H16_recheck", common=dict(VEC)), H("H16_history", common=dict(VEC), quick={"wall": "140s", "shards": 16, "param": "maxEvents=4"}, thorough={"wall": "1500s", "shards": 16, "param": "maxEvents=6"})])
 prop("C19", [H("H19_faults", common=dict(VEC, param="large=1"), quick={"wall": "140s", "shards": 8})])
